@@ -37,7 +37,8 @@ def build():
 
 # ------------------------------------------------------------------ model checks of the spec
 def model_checks(ctx, thorough):
-    if os.environ.get("VERIF_SKIP_MC") == "1":     # development aid for mutant runs: the model checks do not depend on the repo
+    if os.environ.get("VERIF_SKIP_MC") == "1" and os.environ.get("VERIF_EVIDENCE_DIR"):
+        # development aid for mutant runs with scratch evidence: the model checks do not depend on the repo
         ctx.extra["model_checks_skipped"] = True
         return
     jobs = [("IntMathLaws", "MC_IntMath.cfg" if thorough else "MC_IntMath_q.cfg"), ("IntMathWideLaws", "MC_IntMathWide.cfg"),
@@ -282,7 +283,7 @@ def run(ctx):
     ctx.rule = ("one evaluation = one recorded result of a real fcppt call, judged by TLC against IntMath(.Wide).tla. Inputs: every "
                 "value of every 8/16-bit instantiation for unary functions and truncation_check/from_int (all 64 type pairs; enums "
                 "of size 1/3/9 over u8/i8/u16/u32); all 8-bit pairs for div/mod/diff/bit::test; 16-bit pairs: lattice x lattice "
-                "(quick) or every left operand x (lattice + 160 random) (thorough); [0,2047]^2 / [-1024,1023]^2 of ceil_div<u32> / "
+                "(quick) or lattice x all, all x rotating 64-window, all x core set (thorough); [0,2047]^2 / [-1024,1023]^2 of ceil_div<u32> / "
                 "ceil_div_signed<i32>; boundary lattice (0, +-1, +-2, 2^k, 2^k+-1, min, max) squared + seeded random for 32/64-bit. "
                 "A class = (function, operand type, result type, enum size, outcome kind value/nothing/exception, narrow/wide).")
     ctx.assumptions += [
